@@ -31,7 +31,7 @@ def gen_relevant(prop, problem):
     return problem["file"] in PROPS[prop].get("gen", [])
 
 
-HOOK_COMMITS = ["f912e2b", "daf5fa0"]
+HOOK_COMMITS = ["f912e2b", "daf5fa0", "f558b05"]
 
 UNCLAIMED = {}
 
